@@ -288,11 +288,11 @@ def run(ctx):
         # 1. exhaustive checks of the design spec.  Default switches = /repo today (cleartext and
         #    sub-domain and case repairs in, S3 open); "fixed" = S3 repaired too; "as found" = before the repairs.
         mc = [ctx.tlc("AuthMC", "C11_mc_asis.cfg", timeout=3000, workers=8,
-                      label="code as is (S3 open), <=3 faults, 17 generator configurations: every leak goes through "
+                      label="code as is (S3 open), <=3 faults, 18 generator configurations: every leak goes through "
                             "a handler keyed by a foreign host"),
               ctx.tlc("AuthMC", "C11_mc_fixed.cfg" if thorough else
                       write_cfg(ctx, "C11_mc_fixed.cfg", "C11_mc_fixed_q.cfg", {"MaxFaults": 2}), timeout=3000, workers=8,
-                      label="S3 repaired too, <=%d faults, 17 generator configurations: no leak" % (3 if thorough else 2))]
+                      label="S3 repaired too, <=%d faults, 18 generator configurations: no leak" % (3 if thorough else 2))]
         # the as-found variant of the case sensitive guard (before f7f5652) must still show its leak
         cx = ctx.tlc("AuthMC", "C11_mc_case_asfound.cfg", timeout=3000, workers=8, allow_violation=True,
                      label="guard case sensitive as found (before f7f5652): expected counterexample to LeaksOnlyS3")
@@ -302,16 +302,16 @@ def run(ctx):
         if thorough:
             wide = {"Confs": "AllConfs", "MaxFaults": 2}
             mc.append(ctx.tlc("AuthMC", write_cfg(ctx, "C11_mc_asis.cfg", "C11_mc_asis_all.cfg", wide), timeout=3000,
-                              workers=8, label="code as is (S3 open), <=2 faults, all 248 configurations"))
+                              workers=8, label="code as is (S3 open), <=2 faults, all 256 configurations"))
             mc.append(ctx.tlc("AuthMC", write_cfg(ctx, "C11_mc_fixed.cfg", "C11_mc_fixed_all.cfg", wide), timeout=3000,
-                              workers=8, label="S3 repaired too, <=2 faults, all 248 configurations: no leak"))
+                              workers=8, label="S3 repaired too, <=2 faults, all 256 configurations: no leak"))
             mc.append(ctx.tlc("AuthMC", "C11_mc_asfound.cfg", timeout=3000, workers=8,
-                              label="code as found (before 7d8bea3, 14e04da), <=3 faults, 17 configurations: three leak "
+                              label="code as found (before 7d8bea3, 14e04da), <=3 faults, 18 configurations: three leak "
                                     "mechanisms"))
             for k in ("HonorsHost", "SchemeBound", "StripOnRedirect"):
                 one = write_cfg(ctx, "C11_mc_repair.cfg", "C11_mc_%s.cfg" % k, {k: "TRUE"})
                 mc.append(ctx.tlc("AuthMC", one, timeout=3000, workers=8,
-                                  label="as found + only %s, <=3 faults, 17 configurations: its leak class is gone" % k))
+                                  label="as found + only %s, <=3 faults, 18 configurations: its leak class is gone" % k))
             mc.append(ctx.tlc("AuthMC", "C11_mc_deep.cfg", timeout=3000, workers=8,
                               label="code as is (S3 open), <=4 faults, 3 configurations, core alphabets"))
         lap("model checked")
